@@ -116,6 +116,8 @@ def valid (lenient : Bool) : S → J → Bool
   | .arr s, j => match j with | .arr xs => xs.all (fun x => valid lenient s x) | _ => false
   | .map s, j => match j with | .obj kvs => kvs.all (fun kv => valid lenient s kv.2) | _ => false
   | .nullable s, j => j.isNull || valid lenient s j
+  | .strNum _, j => match j with | .str _ => true | _ => false        -- `format` is an annotation: any string is valid
+  | .strFloat _, j => match j with | .str _ => true | _ => false
   | .obj ps addl, j => match j with
     | .obj kvs => validProps lenient ps kvs && validAddl lenient addl (restOf ps.names kvs)
     | _ => false
@@ -147,6 +149,8 @@ def same : S → J → J → Bool
     | .obj xs, .obj ys => sameKvs (fun x y => same s x y) xs ys
     | _, _ => false
   | .nullable s, a, b => if a.isNull then b.isNull else (!b.isNull && same s a b)
+  | .strNum _, a, b => a.scalarEq b
+  | .strFloat _, a, b => a.scalarEq b
   | .obj ps addl, a, b => match a, b with
     | .obj xs, .obj ys =>
       sameProps ps xs ys && sameAddl addl (restOf ps.names xs) ys &&
@@ -188,6 +192,7 @@ def judge (s : S) (t : Ty) (doc : J) : Bool := judgeRun s doc (rt t doc)
 inductive Known
   | nonStringEnum | enumAliasMerged | renamedDup | numericWidth
   | requiredNullDropped | requiredNullableMissing | containerDefault | structFromSeq
+  | stringNumericFormat
   deriving DecidableEq, Repr
 
 def Known.name : Known → String
@@ -195,6 +200,7 @@ def Known.name : Known → String
   | .renamedDup => "KnownRenamedDup" | .numericWidth => "KnownNumericWidth"
   | .requiredNullDropped => "KnownRequiredNullDropped" | .requiredNullableMissing => "KnownRequiredNullableMissing"
   | .containerDefault => "KnownContainerDefault" | .structFromSeq => "KnownStructFromSeq"
+  | .stringNumericFormat => "KnownStringNumericFormat"
 
 def isStr : J → Bool
   | .str _ => true
@@ -225,6 +231,9 @@ def classes (fname : Str → Str) (vname : J → Str) : S → J → List Known
   | .arr s, j => match j with | .arr xs => xs.flatMap (fun x => classes fname vname s x) | _ => []
   | .map s, j => match j with | .obj kvs => kvs.flatMap (fun kv => classes fname vname s kv.2) | _ => []
   | .nullable s, j => if j.isNull then [] else classes fname vname s j
+  -- the member is a Rust number: every STRING (all of them valid) is refused, every in-range NUMBER (none of them valid) is read
+  | .strNum _, j => match j with | .str _ => [.stringNumericFormat] | .num _ _ => [.stringNumericFormat] | _ => []
+  | .strFloat _, j => match j with | .str _ => [.stringNumericFormat] | .num _ _ => [.stringNumericFormat] | _ => []
   | .obj ps addl, j => match j with
     | .obj kvs => classesProps fname vname ps [] ps.anyDefault kvs ++ classesAddl fname vname addl (restOf ps.names kvs)
     | .arr _ => (match addl with | .typed _ => [] | _ => [.structFromSeq])
